@@ -16,7 +16,12 @@ import (
 	"github.com/internetarchive/Zeno/internal/pkg/veriflib"
 )
 
-const c10KeyPDFPageTreeCycle = "C10-extractor.PDF-pdfcpu-stackoverflow-pagetree-cycle"
+const (
+	c10KeyPDFPageTreeCycle = "C10-extractor.PDF-pdfcpu-stackoverflow-pagetree-cycle"
+	c10KeyPDFNestedDict    = "C10-extractor.PDF-pdfcpu-hang-nested-dict"
+	// the parser retries every dictionary that failed to parse a second time ("relaxed"), at every nesting level: 2^depth
+	c10PDFDictDepthLimit = 14
+)
 
 var (
 	c10ObjRe  = regexp.MustCompile(`(\d+)[\s\x00]+\d+[\s\x00]+obj\b`)
@@ -82,9 +87,36 @@ func c10PDFPageTreeCycle(b []byte) bool {
 	return false
 }
 
-// c10FatalClass names the open-finding class an input belongs to when that class kills the process ("" = none).
+// c10PDFDictDepth: deepest run of "<<" not yet closed by ">>" (strings and comments are not interpreted: over-approximation).
+func c10PDFDictDepth(b []byte) int {
+	depth, deepest := 0, 0
+	for i := 0; i+1 < len(b); i++ {
+		switch {
+		case b[i] == '<' && b[i+1] == '<':
+			depth++
+			deepest = max(deepest, depth)
+			i++
+		case b[i] == '>' && b[i+1] == '>':
+			depth = max(depth-1, 0)
+			i++
+		case b[i] == 'e' && bytes.HasPrefix(b[i:], []byte("endobj")):
+			depth = 0
+		}
+	}
+	return deepest
+}
+
+// c10FatalClass names the OPEN finding an input belongs to when that class cannot be survived in-process (fatal
+// runtime error, or a hang that costs a core for ever): such inputs are kept out of the search before execution.
 func c10FatalClass(c c10Case) string {
-	if (c.Target == "pdf" || c.Target == "chain") && bytes.Contains(c.Body[:min(len(c.Body), 2048)], []byte("%PDF-")) && c10PDFPageTreeCycle(c.Body) {
+	cycle, nested := veriflib.FindingOpen(c10KeyPDFPageTreeCycle), veriflib.FindingOpen(c10KeyPDFNestedDict)
+	if !cycle && !nested || c.Target != "pdf" && c.Target != "chain" || !bytes.Contains(c.Body[:min(len(c.Body), 2048)], []byte("%PDF-")) {
+		return ""
+	}
+	if nested && c10PDFDictDepth(c.Body) >= c10PDFDictDepthLimit {
+		return c10KeyPDFNestedDict
+	}
+	if cycle && c10PDFPageTreeCycle(c.Body) {
 		return c10KeyPDFPageTreeCycle
 	}
 	return ""
@@ -109,4 +141,22 @@ func TestVerifKF_C10_extractor_PDF_pdfcpu_stackoverflow_pagetree_cycle(t *testin
 		t.Fatalf("harness: the pre-execution filter does not recognise the minimal input of %s", c10KeyPDFPageTreeCycle)
 	}
 	propC10(t, c10Case{Target: "pdf", Body: body, Note: "known finding " + c10KeyPDFPageTreeCycle})
+}
+
+// TestVerifKF_C10_extractor_PDF_pdfcpu_hang_nested_dict: 64 nested, unterminated dictionaries (about 430 bytes) cost
+// pdfcpu's object parser 2^64 attempts: extractor.PDF never returns. The known exponential is confirmed with a 2 s
+// first deadline and three 20 s re-runs instead of 10 s / 100 s (same rule, smaller constants: 2^64 steps do not
+// finish in either).
+func TestVerifKF_C10_extractor_PDF_pdfcpu_hang_nested_dict(t *testing.T) {
+	defer veriflib.Flush()
+	defer c10JournalEnd("")
+	body := c10KFFile(t, "pdf/kf-nested-dict-hang.pdf")
+	if c10PDFDictDepth(body) < c10PDFDictDepthLimit {
+		t.Fatalf("harness: the pre-execution filter does not recognise the minimal input of %s", c10KeyPDFNestedDict)
+	}
+	if os.Getenv("VERIF_C10_BUDGET_MS") == "" {
+		os.Setenv("VERIF_C10_BUDGET_MS", "2000")
+		defer os.Unsetenv("VERIF_C10_BUDGET_MS")
+	}
+	propC10(t, c10Case{Target: "pdf", Body: body, Note: "known finding " + c10KeyPDFNestedDict})
 }
